@@ -13,7 +13,7 @@ ID = "C02"
 RULE = (
     "Two generated domains. (A) round trip: 1..4 tables (rows 1..200, an empty table only last; 1..30 columns) of "
     "kind int/float/text/mixed-text, floats with 0..12 decimals and exponents -8..8, text tokens from "
-    "[A-Za-z0-9_./:@$+-] never numeric-looking per column, block names data_/data_particles/data_optics/"
+    "printable ASCII without blank and '#' (quotes, commas, brackets included) never numeric-looking per column, block names data_/data_particles/data_optics/"
     "data_stopgap_*, number_columns on/off; oracle: read(write(frames)) equals the generated frames (numeric within "
     "half a unit of the 6th decimal and itself 6-decimal, ints integral, text identical) AND the written text, "
     "tokenized independently, carries exactly those labels (#n numbering iff requested and not stopgap) and tokens. "
@@ -34,7 +34,7 @@ BUDGET = {"quick": {"examples": 1200, "seconds": 70}, "thorough": {"examples": 6
 # ---------------------------------------------------------------------------------------------
 # generators
 # ---------------------------------------------------------------------------------------------
-TEXT_ALPHA = "abcdefxyzABCXYZ0123456789_./:@$+-"
+TEXT_ALPHA = "abcdefxyzABCXYZ0123456789_./:@$+-" + "\"',;=()[]{}|\\%&*!?<>~^`"  # any printable non-blank character except #
 SAFE_LETTERS = "ghjkmqruvwzGHJKMQRUVWZ"  # never part of inf/nan/infinity/true/false/hex/exponent spellings
 SPECS = ["data_", "data_particles", "data_optics", "data_stopgap_motivelist", "data_stopgap_wedgelist", "data_general"]
 
